@@ -279,6 +279,36 @@ func (w *World) HelperClosure(base map[*FuncInfo]string) map[*FuncInfo]string {
 	return out
 }
 
+// Within returns fi together with the private (unexported, same-package)
+// functions it reaches through static calls, bounded in depth: the code a
+// maintainer may have split fi into. Order: fi first, then by position.
+func (w *World) Within(fi *FuncInfo, depth int) []*FuncInfo {
+	seen := map[*FuncInfo]bool{fi: true}
+	out := []*FuncInfo{fi}
+	frontier := []*FuncInfo{fi}
+	for d := 0; d < depth; d++ {
+		var next []*FuncInfo
+		for _, f := range frontier {
+			for _, c := range callsIn(f.Decl.Body, true) {
+				cal := callee(f.Pkg.TypesInfo, c)
+				if cal == nil || cal.Exported() {
+					continue
+				}
+				t := w.Decls[cal]
+				if t == nil || t.Pkg != fi.Pkg || seen[t] {
+					continue
+				}
+				seen[t] = true
+				next = append(next, t)
+			}
+		}
+		sort.Slice(next, func(i, j int) bool { return next[i].Decl.Pos() < next[j].Decl.Pos() })
+		out = append(out, next...)
+		frontier = next
+	}
+	return out
+}
+
 // Fn looks a function up by display name in a package; nil if absent.
 func (w *World) Fn(p *packages.Package, display string) *FuncInfo {
 	return w.byName[p.PkgPath+"."+display]
